@@ -74,6 +74,14 @@ def sem_fixed():
         Variant("FxAt", "struct", [Field("fx_at", user(pt), flatten=True)]),
         Variant("FxCircle", "struct", [Field("fx_r", prim("i32"))])]))
     add(Item("FxTaggedFlatOnly", "FxTaggedFlatOnly", "named", tag="fx_t", fields=[Field("fx_p", user(pt), flatten=True)]))
+    # a serde key ts-rs has no use for, written without a value directly in front of keys it uses (one list)
+    it = add(Item("FxFlagBeforeKey", "FxFlagBeforeKey", "enum", variants=[
+        Variant("FxCircle", "struct", [Field("fx_radius", prim("u8"))]), Variant("FxUnitSquare", "unit")]))
+    it.extra_attrs.append('#[serde(deny_unknown_fields, tag = "fx_kind", rename_all = "snake_case")]')
+    add(Item("FxFlagBeforeRename", "FxFlagBeforeRename", "named", fields=[
+        Field("fx_identifier", prim("u32"), extra_attrs=['#[serde(skip_deserializing, rename = "fx_id")]']),
+        Field("fx_other_one", prim("bool"))],
+        extra_attrs=['#[serde(deny_unknown_fields, rename_all = "UPPERCASE")]']))
     # a string literal that looks like the start of a comment, inside the first of two flattened enums of an only-flattened member
     em = add(Item("FxMimeA", "FxMimeA", "enum", variants=[
         Variant("FxImg", "struct", [Field("fx_w", prim("i32"))], rename="image/*"), Variant("FxTxt", "struct", [Field("fx_t", prim("bool"))], rename="text/*")]))
